@@ -32,9 +32,11 @@ def main(argv=None):
                      'there); family readcur (readCurrent on COMMITTED objects with a second connection committing in '
                      'between, savepoints and rollbacks: ConflictError / ReadConflictError / success decided by the '
                      'oracle; a declaration is never withdrawn by a rollback) is judged by its own oracle alone',
-                     'C12 promises nothing about the in-memory state of an object that was un-added; once such an '
-                     'object whose state was lost (finding C11:stored-new-object-ghostified-on-abort) is added '
-                     'again the rest of the program is outside the claim (counted as tainted-by-C11-finding)',
+                     'open finding C12:savepoint-created-object-ghostified-on-abort (an object created in a savepoint and '
+                     'modified later loses its state on abort / rollback to an earlier savepoint; the residual of the '
+                     'repaired C11:stored-new-object-ghostified-on-abort family): reported under exactly that signature '
+                     '(saved in a savepoint, modified since the last one, then un-added without state), hit by corpus '
+                     'case 13 on every run; only the first occurrence is shrunk; the case is judged up to it',
                      'the blob family is judged by the oracle alone (bytes per blob; savepoint = copy, rollback = '
                      'restore); the blob FILES of the storage are the subject of C13',
                      'objects that reload themselves on invalidation (persistent classes, self-activating objects) '
